@@ -38,6 +38,7 @@ TraceInit ==
   /\ pc = "start"
   /\ ldict = <<>> /\ lcodes = <<>> /\ labels = <<>> /\ ptr = <<>>
   /\ first = 0 /\ pieces = <<>> /\ partial = <<>> /\ todo = {} /\ combined = <<>> /\ nmerged = 0 /\ oob = FALSE
+  /\ calls = 1
 
 TFactorize == /\ l = 0 /\ T.out = "ok"
               /\ SumTo(klens, Len(klens)) = Len(keys) /\ Len(vals) = Len(keys)
